@@ -6,6 +6,8 @@ From S4.Model Require Import Calendar CliDt.
 From S4.Gen Require Import CliDtTables.
 From S4.Spec Require Import CalendarSpec CliDtRef CliDtSpec.
 From S4.Proofs Require Import CalendarProofs CliDtSpecProofs CliDtAbsInfra CliDtAbsProofs CliDtMiscProofs.
+From S4.Proofs Require Import CliDtScanLemmas CliDtUniversal CliDtNamedInfra CliDtNamed CliDtLanguage.
+Open Scope string_scope.
 Open Scope Z_scope.
 
 (* ---- calendar: the era-based arithmetic of the model is the definitional day count, every year >= 0 *)
@@ -49,31 +51,52 @@ Theorem C14_bare_date_is_midnight_in_tz :
 Proof. exact abs_date_resolves. Qed.
 Print Assumptions C14_bare_date_is_midnight_in_tz.
 
-Theorem C14_named_zone_PST_partial :
-  forall l y m d h mi s fr sp tz,
-    form_ok (FDateTime l y m d h mi s fr (ZoneName sp "PST")) = true ->
-    m_resolve_abs (classify (render (FDateTime l y m d h mi s fr (ZoneName sp "PST")))) tz
-    = denote (FDateTime l y m d h mi s fr (ZoneName sp "PST")) tz 0 None.
-Proof. exact abs_named_PST_partial. Qed.
-Print Assumptions C14_named_zone_PST_partial.
+(* named zones: EVERY unambiguous name of the regenerated table (= the reference table), every layout,
+   fraction, documented spacing and every field value *)
+Theorem C14_named_zone_universal :
+  forall name l y m d h mi s fr sp tz,
+    In name (names_with false) ->
+    form_ok (FDateTime l y m d h mi s fr (ZoneName sp name)) = true ->
+    m_resolve_abs (classify (render (FDateTime l y m d h mi s fr (ZoneName sp name)))) tz
+    = denote (FDateTime l y m d h mi s fr (ZoneName sp name)) tz 0 None.
+Proof. exact abs_named_universal. Qed.
+Print Assumptions C14_named_zone_universal.
 
-Theorem C14_named_zone_all_names_fixed_fields_partial :
-  forallb (fun name =>
-    forallb (fun l =>
-      match m_resolve_abs (classify (render (named_form l name))) 19800,
-            denote_with spec_days_fast (named_form l name) 19800 0 None with
-      | Some a, Some b => a =? b
-      | _, _ => false
-      end) [LCompact; LDashSpace; LDashT; LSlash]) (names_with false) = true.
-Proof. exact named_all_names_fixed_fields. Qed.
-Print Assumptions C14_named_zone_all_names_fixed_fields_partial.
+Example C14_named_zone_universal_satisfiable :
+  In "NPT" (names_with false)
+  /\ form_ok (FDateTime LSlash 2024 2 29 23 59 59 (FMicro 999999) (ZoneName true "NPT")) = true
+  /\ In "chast" (names_with false).
+Proof. exact named_universal_satisfiable. Qed.
+Print Assumptions C14_named_zone_universal_satisfiable.
 
-Theorem C14_plus_epoch_is_utc_partial :
-  forallb (fun tz => match m_resolve (cs "+1987184272") tz None 0 with
-                     | Some v => v =? 1987184272 * NS | None => false end)
-          [0; 19800; -12600; 50400; -43200; 3600] = true.
-Proof. exact plus_epoch_is_utc. Qed.
-Print Assumptions C14_plus_epoch_is_utc_partial.
+(* the zone table entry by entry: letters only, first occurrence, value "" or sign HH:MM within a
+   day with minutes < 60, equal to the reference value *)
+Theorem C14_zone_table_entries_ok : forallb entry_ok ref_tz_table = true.
+Proof. exact table_entries_ok. Qed.
+Print Assumptions C14_zone_table_entries_ok.
+
+(* "+epoch": EVERY non-empty digit string (any length, leading zeros); UTC whatever --tz-offset, the
+   other bound and the clock; accepted exactly up to chrono's last second (+262142-12-31T23:59:59Z) *)
+Theorem C14_plus_epoch_universal :
+  forall ds tz other now,
+    digits_ok ds = true ->
+    m_resolve (classify (render (FEpoch ds))) tz other now
+    = if dval ds <=? TS_MAX then Some (dval ds * NS) else None.
+Proof. exact plus_epoch_universal. Qed.
+Print Assumptions C14_plus_epoch_universal.
+
+Theorem C14_plus_epoch_is_documented_instant :
+  forall ds tz other now,
+    digits_ok ds = true -> dval ds <= TS_MAX ->
+    m_resolve (classify (render (FEpoch ds))) tz other now = denote (FEpoch ds) tz now other.
+Proof. exact plus_epoch_is_denoted. Qed.
+Print Assumptions C14_plus_epoch_is_documented_instant.
+
+Example C14_plus_epoch_hyps_satisfiable :
+  digits_ok [0;0;1;7]%N = true /\ dval [0;0;1;7]%N <= TS_MAX
+  /\ digits_ok [8;2;1;0;2;6;6;8;7;6;8;0;0]%N = true /\ ~ dval [8;2;1;0;2;6;6;8;7;6;8;0;0]%N <= TS_MAX.
+Proof. exact plus_epoch_hyps_satisfiable. Qed.
+Print Assumptions C14_plus_epoch_hyps_satisfiable.
 
 (* the code before the fix (epoch read in the --tz-offset zone): refuted *)
 Theorem C14_plus_epoch_refuted_before_fix :
@@ -82,17 +105,69 @@ Theorem C14_plus_epoch_refuted_before_fix :
 Proof. exact plus_epoch_refuted_before_fix. Qed.
 Print Assumptions C14_plus_epoch_refuted_before_fix.
 
-(* ---- relative forms *)
-Theorem C14_relative_examples_partial :
-  m_resolve (cs "-1w22h") 19800 None 1700000000 = Some ((1700000000 - (604800 + 22 * 3600)) * NS)
-  /\ m_resolve (cs "+30s") (-12600) None 1700000000 = Some ((1700000000 + 30) * NS)
-  /\ m_resolve (cs "+1w2d3h4m5s") 0 None 1700000000 = Some ((1700000000 + (604800 + 2 * 86400 + 3 * 3600 + 4 * 60 + 5)) * NS)
-  /\ m_resolve (cs "-5s4m3h2d1w") 0 None 1700000000 = Some ((1700000000 - (604800 + 2 * 86400 + 3 * 3600 + 4 * 60 + 5)) * NS)
-  /\ m_resolve (cs "-0012d00345m") 3600 None 1700000000 = Some ((1700000000 - (12 * 86400 + 345 * 60)) * NS)
-  /\ m_resolve (cs "@+90m") 3600 (Some 123456789) 1700000000 = Some (123456789 + 5400 * NS)
-  /\ m_resolve (cs "@-1d") 3600 None 1700000000 = None.
-Proof. exact relative_examples_partial. Qed.
-Print Assumptions C14_relative_examples_partial.
+(* ---- relative forms: EVERY non-empty sequence of (count, unit) items, any order and multiplicity,
+   both signs, with and without '@' *)
+(* string_wdhms_to_duration on the rendered text, with the exact guards: a count above i64::MAX exits;
+   count*unit above TimeDelta::MAX seconds is "not parseable"; the sum above TimeDelta::MAX panics;
+   a unit that occurs several times keeps its LAST count (eff) *)
+Theorem C14_relative_duration_universal :
+  forall at_ neg items,
+    items <> [] -> Forall item_ne items ->
+    m_wdhms (rel_arg at_ neg items) = rel_dur at_ neg items.
+Proof. exact wdhms_rendered. Qed.
+Print Assumptions C14_relative_duration_universal.
+
+Theorem C14_relative_universal :
+  forall at_ neg items tz other now,
+    items <> [] -> Forall item_ne items ->
+    m_resolve (rel_arg at_ neg items) tz other now = rel_value (rel_dur at_ neg items) other now.
+Proof. exact relative_universal. Qed.
+Print Assumptions C14_relative_universal.
+
+Theorem C14_relative_text_is_rendering :
+  forall at_ neg items, Forall item_ok items -> classify (render (FRel at_ neg items)) = rel_arg at_ neg items.
+Proof. exact classify_render_rel. Qed.
+Print Assumptions C14_relative_text_is_rendering.
+
+(* the documented forms (each unit at most once, sum within the bound the spec speaks about):
+   now (whole seconds) or the other bound, plus/minus the sum of the units *)
+Theorem C14_relative_documented :
+  forall at_ neg items tz other now,
+    form_ok (FRel at_ neg items) = true ->
+    TS_MIN + DUR_BOUND <= now <= TS_MAX - DUR_BOUND ->
+    (forall o, other = Some o -> TS_MIN * NS + DUR_BOUND * NS <= o <= TS_MAX * NS - DUR_BOUND * NS) ->
+    m_resolve (classify (render (FRel at_ neg items))) tz other now = denote (FRel at_ neg items) tz now other.
+Proof. exact relative_documented. Qed.
+Print Assumptions C14_relative_documented.
+
+Example C14_relative_documented_satisfiable :
+  form_ok (FRel true true [([1;2]%N, UD); ([0;3;4;5]%N, UM)]) = true
+  /\ TS_MIN + DUR_BOUND <= 1700000000 <= TS_MAX - DUR_BOUND.
+Proof. exact relative_documented_satisfiable. Qed.
+Print Assumptions C14_relative_documented_satisfiable.
+
+Theorem C14_units_once_sum :
+  forall items, units_distinct items = true -> unit_total items = rel_sum items.
+Proof. exact unit_total_distinct. Qed.
+Print Assumptions C14_units_once_sum.
+
+Example C14_repeated_units_last_wins :
+  m_resolve (cs "+1d2d") 0 None 1700000000 = Some ((1700000000 + 2 * 86400) * NS)
+  /\ rel_dur false false [([1]%N, UD); ([2]%N, UD)] = DurOk (2 * 86400) false
+  /\ m_resolve (cs "-6w5w4w") 0 None 1700000000 = Some ((1700000000 - 4 * 604800) * NS)
+  /\ m_resolve (cs "+1d1h1d") 0 None 1700000000 = Some ((1700000000 + 86400 + 3600) * NS).
+Proof. exact repeated_units_last_wins. Qed.
+Print Assumptions C14_repeated_units_last_wins.
+
+Example C14_relative_guards_on_the_boundary :
+  rel_dur false false [([9;2;2;3;3;7;2;0;3;6;8;5;4;7;7;5]%N, US)] = DurOk 9223372036854775 false
+  /\ rel_dur false false [([9;2;2;3;3;7;2;0;3;6;8;5;4;7;7;6]%N, US)] = DurNone
+  /\ rel_dur false false [([9;2;2;3;3;7;2;0;3;6;8;5;4;7;7;5;8;0;8]%N, US)] = DurExit
+  /\ rel_dur false true [([9;2;2;3;3;7;2;0;3;6;8;5;4;7;7;5]%N, US); ([1]%N, UM)] = DurExit
+  /\ rel_dur true false [([1;5;2;5;0;2;8;4;4;5;2]%N, UW)] = DurOk (15250284452 * 604800) true
+  /\ rel_dur true false [([1;5;2;5;0;2;8;4;4;5;3]%N, UW)] = DurNone.
+Proof. exact relative_guards. Qed.
+Print Assumptions C14_relative_guards_on_the_boundary.
 
 Theorem C14_at_relative :
   forall a rel tz now x d,
@@ -150,27 +225,83 @@ Theorem C14_after_gt_before_rejected :
 Proof. exact after_not_after_before. Qed.
 Print Assumptions C14_after_gt_before_rejected.
 
+(* every ambiguous name of the table, every layout, fraction, spacing, every field value, whatever
+   --tz-offset, the other bound and the clock *)
 Theorem C14_ambiguous_zone_names_rejected :
-  forallb (fun name =>
-    forallb (fun l =>
-      match m_resolve (classify (render (named_form l name))) 19800 None 1700000000 with
-      | Some _ => false | None => true end) [LCompact; LDashSpace; LDashT; LSlash]) (names_with true) = true.
-Proof. exact ambiguous_names_rejected. Qed.
+  forall name l y m d h mi s fr sp tz other now,
+    In name (names_with true) ->
+    m_resolve (classify (render (FDateTime l y m d h mi s fr (ZoneName sp name)))) tz other now = None.
+Proof. exact abs_named_ambiguous_rejected. Qed.
 Print Assumptions C14_ambiguous_zone_names_rejected.
 
-(* near-miss strings (F4).  Universal at the level of the matcher for a foreign or digit first
-   character; the full statement "every near-miss string resolves to None" is proved only for
-   the witnesses (_partial) and sampled by runs B and C. *)
+Example C14_ambiguous_names_exist : In "SST" (names_with true).
+Proof. exact ambiguous_names_exist. Qed.
+Print Assumptions C14_ambiguous_names_exist.
+
+(* ---- which texts are resolved at all: resolve s <> None  <->  s in L (so every near-miss string,
+   being outside L, is rejected).  L = texts read by some regenerated row (the LENIENT language of its
+   pattern: relation [lenient], equivalent to the scanner) + the rendered relative forms within the guards *)
+Theorem C14_relative_matcher_language :
+  forall s at_ neg caps,
+    m_search true true s = Some (at_, neg, caps) <->
+    exists items, items <> [] /\ Forall item_ne items /\ s = rel_arg at_ neg items /\ caps = caps_of items.
+Proof. exact rel_language. Qed.
+Print Assumptions C14_relative_matcher_language.
+
+Theorem C14_pattern_language :
+  forall items, forallb basic_item items = true ->
+    forall s fs, scan items s = Some fs <-> lenient items s fs.
+Proof. exact scan_iff_lenient. Qed.
+Print Assumptions C14_pattern_language.
+
+Theorem C14_rows_use_basic_items :
+  forallb (fun rw => forallb basic_item (tokenize (final_pattern append_pattern rw))) cli_rows = true.
+Proof. exact rows_basic. Qed.
+Print Assumptions C14_rows_use_basic_items.
+
+Theorem C14_resolve_language :
+  forall s tz other now,
+    m_resolve s tz other now <> None <->
+    (exists rw v, In rw cli_rows /\ row_accepts rw s tz v)
+    \/ (exists at_ neg items, items <> [] /\ Forall item_ne items /\ s = rel_arg at_ neg items
+                              /\ rel_value (rel_dur at_ neg items) other now <> None).
+Proof. exact resolve_language. Qed.
+Print Assumptions C14_resolve_language.
+
+Theorem C14_absolute_value_is_a_rows_reading :
+  forall s tz v, m_resolve_abs s tz = Some v -> exists rw, In rw cli_rows /\ row_accepts rw s tz v.
+Proof. exact resolve_abs_language. Qed.
+Print Assumptions C14_absolute_value_is_a_rows_reading.
+
+Theorem C14_outside_language_rejected :
+  forall s tz other now,
+    (forall rw v, In rw cli_rows -> ~ row_accepts rw s tz v) ->
+    (forall at_ neg items, items <> [] -> Forall item_ne items -> s <> rel_arg at_ neg items) ->
+    m_resolve s tz other now = None.
+Proof. exact outside_language_rejected. Qed.
+Print Assumptions C14_outside_language_rejected.
+
+(* the extras the lenient language admits beyond the documented grammar, one accepted witness per
+   class (each reproduced on the binary by the check), and rejected neighbours *)
+Example C14_extras_accepted : forallb (fun cw => accepted (snd cw)) extras_witnesses = true.
+Proof. exact extras_accepted. Qed.
+Print Assumptions C14_extras_accepted.
+
+Example C14_outside_witnesses_rejected : forallb (fun s => negb (accepted s)) outside_witnesses = true.
+Proof. exact outside_rejected. Qed.
+Print Assumptions C14_outside_witnesses_rejected.
+
+(* matcher level, universal: no text beginning with a character other than '@' '+' '-' is a relative offset *)
 Theorem C14_anchored_matcher_rejects_foreign_first_char :
   forall c rest a_e, c <> 64%N -> c <> 43%N -> c <> 45%N -> m_search true a_e (Ch c :: rest) = None.
 Proof. exact anchored_rejects_foreign_first_char. Qed.
 Print Assumptions C14_anchored_matcher_rejects_foreign_first_char.
 
-Theorem C14_near_miss_witnesses_rejected_partial :
+Example C14_near_miss_witnesses_rejected :
   forallb (fun s => match m_resolve (cs s) 0 None 1700000000 with
                     | Some _ => false | None => true end) near_miss_witnesses = true.
 Proof. exact near_miss_witnesses_rejected. Qed.
-Print Assumptions C14_near_miss_witnesses_rejected_partial.
+Print Assumptions C14_near_miss_witnesses_rejected.
 
 (* the code before the fix (unanchored expression) accepted every witness: refuted *)
 Theorem C14_near_miss_refuted_before_fix :
